@@ -1,5 +1,6 @@
 SPECIFICATION Spec
 INVARIANT KnownEvent
+INVARIANT Cl_ConversionTotal
 INVARIANT Cl_RoundTrip
 INVARIANT Cl_FixesEnds
 INVARIANT Cl_SumOne
